@@ -31,16 +31,16 @@ pub open spec fn dec(s: Seq<u8>, a: int, version: u64) -> BNode {
 pub open spec fn dec_start(s: Seq<u8>, a: int, version: u64) -> int {
     if s[a] & 0xc0 == 0xc0 { dec_otn_start(s, a) } else if s[a] & 0xc0 == 0x80 { dec_ot_start(s, a) } else { dec_layout(s, a, version).start }
 }
-pub type G = Map<nat, BNode>;
+pub type G = vstd::map::Map<nat, BNode>;
 pub open spec fn hdr() -> nat { 16 }
 /// the emitted graph: the body parsed backwards from its last state byte, node by node, down to the 16-byte header
 pub open spec fn graph(s: Seq<u8>, version: u64) -> G
     decreases s.len(),
 {
-    if s.len() <= hdr() { Map::empty() }
+    if s.len() <= hdr() { vstd::map::Map::empty() }
     else {
         let a = s.len() - 1;
         let st = dec_start(s, a, version);
-        if hdr() <= st <= a { graph(s.subrange(0, st), version).insert(a as nat, dec(s, a, version)) } else { Map::empty() }
+        if hdr() <= st <= a { graph(s.subrange(0, st), version).insert(a as nat, dec(s, a, version)) } else { vstd::map::Map::empty() }
     }
 }
